@@ -80,6 +80,9 @@ Inductive op :=
 | OBinWrite (r b : nat) (g : list Z -> list Z -> list Z)           (* cy: a.iadd_prefactor_other(s, b), same block structure *)
 | OMapRebind (r : nat) (f : list Z -> list Z) (gt : list (list nat) -> list (list nat))
              (perm : list nat)                                      (* itranspose / py iscale_prefactor / iconj *)
+| OMeta (r : nat) (gt : list (list nat) -> list (list nat)) (perm : list nat)
+             (* in-place methods that keep the block MEMORY: py itranspose (np.transpose views), iconj of real data,
+                ireplace_label, isort_qdata, ipurge_zeros: new _qdata table / list objects, permuted legs and labels *)
 | OProject (r : nat) (f : list Z -> list Z) (gt : list (list nat) -> list (list nat))
            (newlegs : list legrec)                                  (* iproject *)
 | OUnary (r : nat) (f : list Z -> list Z)                           (* a * s, a.conj(), a.transpose(): deep copy, then in place on the copy *)
@@ -90,7 +93,7 @@ Inductive op :=
 
 Definition inplace_receiver (o : op) : option nat :=
   match o with
-  | OMapWrite r _ | OBinWrite r _ _ | OMapRebind r _ _ _ | OProject r _ _ _ => Some r
+  | OMapWrite r _ | OBinWrite r _ _ | OMapRebind r _ _ _ | OMeta r _ _ | OProject r _ _ _ => Some r
   | _ => None
   end.
 (* in-place methods that write into existing buffers (visible through shallow copies) *)
@@ -132,6 +135,11 @@ Definition exec (h : heap) (o : op) : heap * nat :=
       (mkHeap (write_zip (blk (obj h r)) (map (buf h) (blk (obj h b))) g (bufs h)) (tabs h) (legs h) (objs h), r)
   | OMapRebind r f gt perm =>
       let '(h1, a') := rebind h (obj h r) f gt perm in (set_obj h1 r a', r)
+  | OMeta r gt perm =>
+      let a := obj h r in
+      let a' := mkArr (blk a) (length (tabs h)) (map (fun k => nth k (lg a) 0%nat) perm)
+                      (map (fun k => nth k (lab a) 0%nat) perm) (qt a) in
+      (set_obj (mkHeap (bufs h) (tabs h ++ [gt (nth (tab a) (tabs h) [])]) (legs h) (objs h)) r a', r)
   | OProject r f gt newlegs =>
       let a := obj h r in
       let nb := map (fun i => f (buf h i)) (blk a) in
@@ -180,7 +188,7 @@ Definition may_change (h : heap) (o : op) : list nat :=
 (* ---- replay of a history (harness/c03.py).  The harness numbers its registers consecutively (every
    step appends one); `regs` maps a register to the object of the model.  A step names the kind of
    operation, its operand registers and the registers the implementation observed as changed. *)
-Inductive hop := HNew (nb : nat) (lgs : list nat) | HCopy (deep : bool) | HMapWrite | HBinWrite | HRebind
+Inductive hop := HNew (nb : nat) (lgs : list nat) | HCopy (deep : bool) | HMapWrite | HBinWrite | HRebind | HMeta
                | HProject | HUnary | HScaleAxis | HAdd | HTensordot.
 Definition hstep : Type := (hop * nat * nat * list nat)%type.
 
@@ -192,6 +200,7 @@ Definition to_op (h : heap) (k : hop) (a b : nat) : op :=
   | HMapWrite => OMapWrite a dbl
   | HBinWrite => OBinWrite a b (fun x y => x ++ y)
   | HRebind => OMapRebind a dbl (fun t => t) (id_perm (obj h a))
+  | HMeta => OMeta a (fun t => t) (id_perm (obj h a))
   | HProject => OProject a dbl (fun t => t) (map (fun _ => dleg) (lg (obj h a)))
   | HUnary => OUnary a dbl
   | HScaleAxis => OScaleAxis a dbl
